@@ -349,6 +349,19 @@ def explore_chunk(target, work, limit, carve_names, tier, cross_check=True):
                 res = run_path(ctx)
             except Infeasible:
                 res = PathResult(ctx, 'infeasible', None, None)
+            except OutsideSubset as err:
+                # The path leaves the subset: the target stays UNDECIDED.  The path's choices are still a concrete input
+                # shape, so the REAL code is run on it with the declared sample values; a clause that is false there is
+                # a violation replayed on the real code (never a proof of anything when it is true).
+                set_current_ctx(None)
+                rep.outside.append("%s" % err)
+                _probe_sample(target, rep, ctx)
+                outside_paths = getattr(rep, '_outside_paths', 0) + 1
+                rep._outside_paths = outside_paths
+                if outside_paths >= 4:
+                    break
+                work.extend(ctx.pending)
+                continue
             finally:
                 set_current_ctx(None)
             work.extend(ctx.pending)
@@ -362,6 +375,27 @@ def explore_chunk(target, work, limit, carve_names, tier, cross_check=True):
     except Exception as err:
         rep.errors.append(('crash', "%s: %s\n%s" % (type(err).__name__, err, traceback.format_exc()[-2000:])))
     return rep, work
+
+
+def _probe_sample(target, rep, ctx):
+    """native run of the real code on the choices of a path the engine could not finish (sample values for symbols)"""
+    if not isinstance(target, Target) or not target.native_replay or hasattr(target, 'custom_replay'):
+        return
+    try:
+        nctx, nst, nout, clauses = native_run(target, {}, dict(ctx.choices))
+    except BaseException as err:
+        if isinstance(err, (KeyboardInterrupt, SystemExit, MemoryError)):
+            raise
+        return
+    seen = set()
+    for label, v in clauses:
+        if v is False and label not in seen:
+            seen.add(label)
+            ob = ObRecord(target.oid('ensures', label), 'ensures', label, path_id(ctx.decisions) + 's', nctx.choices)
+            ob.status, ob.backend = 'refuted', 'sample-replay (path outside the subset; real code run on the sample input)'
+            ob.model = dict(getattr(nctx, 'inputs', {}) or {})
+            ob.solver_out = 'not decided symbolically; clause false on the real code for the sample input of this path'
+            rep.obligations.append(ob)
 
 
 def _account_path(target, rep, res, carve, tier, cross_check):
